@@ -139,7 +139,11 @@ def exhaustive(tier, seed):
             else:       # 6 of the 24 combinations, rotated so that all are used equally often
                 combos = [OPT_COMBOS[(k + ci * 3 + 4 * j) % nc] for j in range(6)]
             for combo in combos:
-                yield run_case({"vehicle_events": evs}, components=components(conn, two=False), opts=mk_opts(combo))
+                # SoC 11/16 with desired 3/4 lies inside the 10 % margin band [0.9·desired, desired): the only lattice
+                # point that tells margin 0 from margin 1/10 (seeded change C08-h1: falsy options replaced by defaults)
+                yield run_case({"vehicle_events": evs},
+                               components=components(conn, two=False, soc1=0.6875 if (k + ci) % 2 else 0.5),
+                               opts=mk_opts(combo))
 
 
 def random_history(rnd):
@@ -162,7 +166,7 @@ def random_history(rnd):
     if rnd.random() < 0.2:
         extra["grid_operator_signals"] = [mk_signal(at(0), at(rnd.choice(SLOTS)), max_power=50.0)]
     c = run_case(dict(vehicle_events=evs, **extra),
-                 components=components(rnd.random() < 0.5, soc1=rnd.choice([0.5, 0.0, 0.125, 1.0, 0.75])),
+                 components=components(rnd.random() < 0.5, soc1=rnd.choice([0.5, 0.0, 0.125, 1.0, 0.75, 0.6875, 0.6875])),
                  opts=mk_opts(rnd.choice(OPT_COMBOS)), n=rnd.choice([N, N, 7]))
     if rnd.random() < 0.2:
         c["opts"].pop("margin")         # code default 0.1 (float)
@@ -175,9 +179,10 @@ def scenario_case(rnd):
     for _ in range(rnd.randint(1, 4)):
         e = alphabet_event(rnd.choice(KINDS), rnd.choice(SLOTS), rnd.choice(["v1", "v2"]))
         evs.append(e)
-    c = run_case({"vehicle_events": evs}, components=components(rnd.random() < 0.5, power=0),
+    c = run_case({"vehicle_events": evs},
+                 components=components(rnd.random() < 0.5, power=0, soc1=rnd.choice([0.5, 0.6875])),
                  opts={"ALLOW_NEGATIVE_SOC": rnd.random() < 0.5, "RESET_NEGATIVE_SOC": rnd.random() < 0.5,
-                       "margin": rnd.choice(["0", "1/8", "1"])})
+                       "margin": rnd.choice(["0", "1/8", "1", "1/16"])})
     c["k"] = "scn"
     return c
 
@@ -398,5 +403,7 @@ def eval_case(case):
             stats.add("desired_counter>0")
         if obs.strat.margin_counter:
             stats.add("margin_counter>0")
+        if obs.strat.desired_counter != obs.strat.margin_counter:
+            stats.add("departure_inside_margin_band")
     return {"lines": [line], "impl": [impl], "violations": viol,
             "nontrivial": any(s.startswith("applied_") for s in stats), "stats": sorted(stats)}
